@@ -1429,3 +1429,28 @@ Proof.
     intros H. exfalso. apply (find_common_range_complete _ si f Hne) in H. apply sinb_inb in H.
     apply in_bands_inb in H. fold f in H. congruence.
 Qed.
+
+(* ================================================================ two more places where the faithful model fails *)
+(* a transceiver sitting directly on a line (R0 -> f2 -> T1 -> f3 -> R0): the walk from the ROADM runs through the
+   transceiver, a second OMS starts at the transceiver, and element 3 lies in the interior of both *)
+Theorem partition_trx_on_line_refuted :
+  exists g L u, NoDup (map uid g) /\ build_oms_els g = Ok L /\
+                count_occ Z.eq_dec (flat_map interior L) u = 2%nat.
+Proof.
+  exists [mkN 0 KRoadm [2] []; mkN 1 KTrx [3] []; mkN 2 KOther [1] []; mkN 3 KOther [0] []].
+  eexists. exists 3. split; [|split; [vm_compute; reflexivity|vm_compute; reflexivity]].
+  apply nodup_b_NoDup. reflexivity.
+Qed.
+
+(* an OMS without amplifier takes the SI band; when that band exceeds the range of all amplifiers of the network the
+   map has more cells than slots and Bitmap raises: a chain-structured network on which build_oms_list fails *)
+Theorem build_si_outside_refuted :
+  exists g si d, chain_wf g d /\ build_oms_list g si = Err "SpectrumError:bitmap_len".
+Proof.
+  exists [mkN 0 KRoadm [2] []; mkN 1 KRoadm [3] [];
+          mkN 2 KAmp [1] [((192250000000000 # 1), (196150000000000 # 1))];
+          mkN 3 KOther [0] []],
+         ((191300000000000 # 1), (195100000000000 # 1)),
+         [mkL 0 [2] 1; mkL 1 [3] 0].
+  split; [apply chain_wf_b_sound; vm_compute; reflexivity|vm_compute; reflexivity].
+Qed.
